@@ -11,8 +11,9 @@
    (blocks T ...)           a token stream with columns, EOF token excluded. T is one of
                               (a ID COL)   any token that is not a layout keyword (ID identifies its text)
                               (s ID COL)   string literal
-                              (op ID COL)  binary operator other than '='      (sep ID COL)  ; } ] :
-                              (kw ID COL)  package import package_info and
+                              (op ID COL)  binary operator other than '='
+                              (kw ID COL)  package_info (ID 0) package import and (other IDs)
+                              (dot COL) (lb COL) (rb COL) (ls COL) (rs COL) (semi COL)     . { } [ ] ;
                               (us COL) (let COL) (eq COL) (if COL) (then COL) (else COL) (elif COL)
                               (match COL) (with COL) (bar COL) (arrow COL) (fun COL) (lp COL) (rp COL)
                               (comma COL) (type COL) (eol COL)
@@ -25,10 +26,18 @@
                             explicit). The oracle renders it (Layout.r_prog) and parses the tokens.
                             -> "PARSED same=<true|false> <tree>" (same: the tree equals the erasure
                                Layout.er_prog of the decorated tree), "REJECT", "FUEL".
-     PROG   ::= (prog INNER (root BL COL STMT) ...)        INNER: column of all inner tokens
+     PROG   ::= (prog INNER ROOTITEM ...)                  INNER: column of all inner tokens
+     ROOTITEM ::= (root BL COL STMT)                                    a root let
+              | (union BL COL NAME BL COL (TOK ...) ((BL COL (TOK ...)) ...))    type NAME = EOLs | case0 | case ...
+              | (info BL COL NAME BL COL (TOK ...) ((BL COL (TOK ...)) ...))     package_info NAME = EOLs let d0 / let d ...
+              | (line BL COL K (TOK ...))                               package (K 0) / import (K 1) line
      STMT   ::= (let X same EXPR) | (let X (next BL COL) EXPR) | (letfn F P (PS ...) BODY) | (expr EXPR)
+              | (letd X Y (ZS ...) BRK EXPR)                          let (x, y, zs...) = e
      EXPR   ::= (t TERM) | (op ATOM ((COL ATOM) ...) BRK O EXPR)          BRK ::= same | (next BL COL)
-     ATOM   ::= (a N) | (s N) | (lam (PS ...) BODY BRK)
+     ATOM   ::= (a N) | (s N) | (lam (PS ...) BODY BRK) | unit
+              | (group KIND FLD EXPR ((BRK FLD COL EXPR) ...) BRK)     KIND ::= par | slice | rec
+                  first element, then (separator-break field column element)..., then the closing token's break
+     FLD    ::= nofld | (fld X BRK BRK)       record field name, break after the name, break after '=' 
      TERM   ::= (app ATOM (COL ATOM) ...) | (if1 SX SX SX) | (if1 SX SX) | (if SX BL BLOCK IFREST)
               | (match SX BL ARM ...) | (smatch SX BL SARM ...)
               | (ifx SX IFTAIL)                    the general form: what follows 'then'
@@ -76,19 +85,21 @@ let ptok_of rho = function
         | "us" -> TUS | "let" -> TLET | "eq" -> TEQ | "if" -> TIF | "then" -> TTHEN | "else" -> TELSE
         | "elif" -> TELIF | "match" -> TMATCH | "with" -> TWITH | "bar" -> TBAR | "arrow" -> TARROW
         | "fun" -> TFUN | "lp" -> TLP | "rp" -> TRP | "comma" -> TCOMMA | "type" -> TTYPE | "eol" -> TEOL
+        | "dot" -> TDOT | "lb" -> TLB | "rb" -> TRB | "ls" -> TLS | "rs" -> TRS | "semi" -> TSEMI
         | _ -> raise (Parse_error ("token kind " ^ k))) in
     (t, nat_of_int (rho (int_of c)))
   | L [A k; i; c] ->
     let n = nat_of_int (int_of i) in
     let t = (match k with
-        | "a" -> TA n | "s" -> TSTR n | "op" -> TOP n | "sep" -> TSEP n | "kw" -> TKW n
+        | "a" -> TA n | "s" -> TSTR n | "op" -> TOP n | "kw" -> TKW n
         | _ -> raise (Parse_error ("token kind " ^ k))) in
     (t, nat_of_int (rho (int_of c)))
   | _ -> raise (Parse_error "ptok")
 
 let s_tok = function
   | TA a -> "a" ^ string_of_int (int_of_nat a) | TSTR a -> "s" ^ string_of_int (int_of_nat a)
-  | TOP a -> "op" ^ string_of_int (int_of_nat a) | TSEP a -> "sep" ^ string_of_int (int_of_nat a)
+  | TOP a -> "op" ^ string_of_int (int_of_nat a)
+  | TDOT -> "." | TLB -> "lb" | TRB -> "rb" | TLS -> "ls" | TRS -> "rs" | TSEMI -> ";"
   | TKW a -> "kw" ^ string_of_int (int_of_nat a)
   | TUS -> "_" | TLET -> "let" | TEQ -> "=" | TIF -> "if" | TTHEN -> "then" | TELSE -> "else" | TELIF -> "elif"
   | TMATCH -> "match" | TWITH -> "with" | TBAR -> "|" | TARROW -> "->" | TFUN -> "fun" | TLP -> "lp" | TRP -> "rp"
@@ -105,6 +116,8 @@ let rec s_expr = function
 and s_atom = function
   | AT t -> s_tok t
   | APar es -> "(par " ^ String.concat " " (List.map s_expr es) ^ ")"
+  | ASlice es -> "(slice " ^ String.concat " " (List.map s_expr es) ^ ")"
+  | ARec fs -> "(rec " ^ String.concat " " (List.map (fun (nm, e) -> "(" ^ s_toks nm ^ " " ^ s_expr e ^ ")") fs) ^ ")"
 and s_stmt = function
   | SLet (h, e) -> "(let " ^ s_toks h ^ " " ^ s_expr e ^ ")"
   | SLetFn (h, b) -> "(letfn " ^ s_toks h ^ " " ^ s_block b ^ ")"
@@ -115,6 +128,7 @@ and s_rule (Rule (p, b)) = "(rule " ^ s_toks p ^ " " ^ s_block b ^ ")"
 let s_root = function
   | RLet s -> "(rlet " ^ s_stmt s ^ ")"
   | RType (h, cs) -> "(rtype " ^ s_toks h ^ " " ^ String.concat " " (List.map s_toks cs) ^ ")"
+  | RInfo (h, ds) -> "(rinfo " ^ s_toks h ^ " " ^ String.concat " " (List.map s_toks ds) ^ ")"
   | ROther l -> "(rother " ^ String.concat " " (List.map s_tok l) ^ ")"
 
 (* ---- decorated trees *)
@@ -135,11 +149,22 @@ let pat_of = function
   | L [A "case"; n] -> PCase (nat_of n, None)
   | L [A "case"; n; v] -> PCase (nat_of n, Some (nat_of v))
   | _ -> raise (Parse_error "pat")
+let gkind_of = function "par" -> GPar | "slice" -> GSlice | "rec" -> GRec | _ -> raise (Parse_error "group kind")
+let fld_of = function
+  | A "nofld" -> None
+  | L [A "fld"; x; n1; n2] -> Some ((nat_of x, brk_of n1), brk_of n2)
+  | _ -> raise (Parse_error "fld")
 let rec atom_of = function
   | L [A "a"; n] -> LA (nat_of n)
   | L [A "s"; n] -> LS (nat_of n)
   | L [A "lam"; L ps; b; cl] -> LLam (List.map nat_of ps, body_of b, brk_of cl)
+  | A "unit" -> LUnit
+  | L [A "group"; A k; f; e; L more; cl] -> LGroup (gkind_of k, fld_of f, expr_of e, seq_of more, brk_of cl)
   | _ -> raise (Parse_error "atom")
+and seq_of = function
+  | [] -> QNil
+  | L [sb; f; c; e] :: r -> QCons (brk_of sb, fld_of f, nat_of c, expr_of e, seq_of r)
+  | _ -> raise (Parse_error "seq")
 and atoms_of = function
   | [] -> ANil
   | L [c; a] :: r -> ACons (nat_of c, atom_of a, atoms_of r)
@@ -180,6 +205,7 @@ and expr_of = function
   | _ -> raise (Parse_error "expr")
 and stmt_of = function
   | L [A "let"; x; nl; e] -> LLet (nat_of x, brk_of nl, expr_of e)
+  | L [A "letd"; x; y; L zs; nl; e] -> LLetD (nat_of x, nat_of y, List.map nat_of zs, brk_of nl, expr_of e)
   | L [A "letfn"; f; p; L ps; b] -> LLetFn (nat_of f, nat_of p, List.map nat_of ps, body_of b)
   | L [A "expr"; e] -> LExpr (expr_of e)
   | _ -> raise (Parse_error "stmt")
@@ -199,10 +225,18 @@ and sarms_of = function
   | [L [A "sarm"; c; L [A "var"; v]; b; _]] -> SLast (nat_of c, Some (nat_of v), body_of b)
   | L [A "sarm"; c; L [A "lit"; s]; b; bl] :: r -> SCons (nat_of c, nat_of s, body_of b, nat_of bl, sarms_of r)
   | _ -> raise (Parse_error "sarms")
+let line_of = function
+  | L [bl; c; L toks] -> ((nat_of bl, nat_of c), List.map nat_of toks)
+  | _ -> raise (Parse_error "line")
 let prog_of = function
   | L (A "prog" :: inner :: roots) ->
     (nat_of inner, List.map (function
-         | L [A "root"; bl; c; s] -> ((nat_of bl, nat_of c), stmt_of s)
+         | L [A "root"; bl; c; s] -> ((nat_of bl, nat_of c), RLetL (stmt_of s))
+         | L [A "union"; bl; c; name; b0; c0; L case0; L cases] ->
+           ((nat_of bl, nat_of c), RUnionL (nat_of name, nat_of b0, nat_of c0, List.map nat_of case0, List.map line_of cases))
+         | L [A "info"; bl; c; name; b0; c0; L d0; L defs] ->
+           ((nat_of bl, nat_of c), RInfoL (nat_of name, nat_of b0, nat_of c0, List.map nat_of d0, List.map line_of defs))
+         | L [A "line"; bl; c; k; L toks] -> ((nat_of bl, nat_of c), RLineL (nat_of k, List.map nat_of toks))
          | _ -> raise (Parse_error "root")) roots)
   | _ -> raise (Parse_error "prog")
 
